@@ -6,6 +6,10 @@ Three kinds of input (grammar: lean/TTV/Drv/C07.lean):
   [textrepr, isBytes, ml, np, s]          text_repr(s, multiline=ml), ast.literal_eval of it, repr(s), literal_eval of that
   [assert, api, existing, mismatch]       a real TestCase whose body has the details `existing`, then calls the api with a
                                           matcher that returns None / a Mismatch with the given detail names
+  [assert, api, existing, mismatch, after, tearDown, cleanups[, place]]
+                                          ... and what the stage does after the call, what tearDown and the cleanups do;
+                                          place = body (default) | setUp | setUpEarly: the stage that holds all of that
+                                          (setUpEarly: in the test's setUp BEFORE its upcall to the base setUp, which comes last)
 """
 import ast, itertools, os, random, sys, warnings
 from harness.core import Prop, some
@@ -261,6 +265,8 @@ def ctor_matchees():
     V += [('tuple', lambda: info_of(C6.MetaSub(2))), ('tuple', lambda: info_of(C6.MetaValueError((1, 2)))), ('tuple', lambda: info_of(C6.OddError(1))),
           ('tuple', lambda: info_of(C6.UserInterrupt())), ('fn', lambda: C6.Fn(exc=C6.MetaSub(2))), ('fn', lambda: C6.Fn(exc=C6.OddError((1, 2)))),
           ('fn', lambda: C6.Fn(exc=C6.MetaError('x')))]
+    # round h: callables that repeat a warning, emit near-repeats, quiet categories
+    V += [('fn', lambda k=k: C6.Fn(ret=C6.WARN_BASE + k)) for k in (0, 1, 3, 8, 11)]
     return V
 
 
@@ -310,8 +316,8 @@ class C07(Prop):
             'non-ASCII - on a pool of matchees incl. tuples, exc_info, paths with special mode bits), 30% text_repr inputs (str and bytes over an adversarial alphabet: '
             'quotes, backslash, newlines, controls, Latin-1, Z/C categories, astral, lone surrogate; multiline None/True/False), '
             '15% assertThat/assert_that/expectThat programs (pre-existing detail names that collide with the mismatch details / '
-            '"Failed expectation"; after the call the test body, tearDown and 0-3 cleanups return / skip / raise an expected failure / an '
-            'unexpected success / a failure / an error / KeyboardInterrupt). thorough adds every (constructor shape x matchee x annotated x verbose) combination and every str of length <= 4 over a 12-character alphabet and every bytes of '
+            '"Failed expectation"; the call sits in the test method or - a third of them - in setUp, before or after its upcall to the base setUp; after the call that stage, tearDown and 0-3 cleanups return / skip / raise an expected failure / an '
+            'unexpected success / a failure / an error / KeyboardInterrupt). thorough adds every (place x api x mismatch x after x tearDown x cleanup) combination of a small alphabet, every (constructor shape x matchee x annotated x verbose) combination and every str of length <= 4 over a 12-character alphabet and every bytes of '
             'length <= 4 over 9 bytes, x 3 multiline settings. non-trivial: describe = a mismatch was returned; text_repr = the '
             'text contains a quote, backslash, newline or non-printable; assert = a mismatch with details or existing details')
     assumptions = [
@@ -324,7 +330,7 @@ class C07(Prop):
         'MatchesSetwise: messages naming left-over matchers are built inside match(); the model only accounts for them through the str() table',
         'detail names of the harness have no "-<digits>" tail, so that name-<n> is rendered injectively',
         'the end of the run (exceptions collected from body / tearDown / cleanups, forced failure appended last, _select_exception) is a small model of RunTest._run_core restricted to one exception per stage; the full run model belongs to C01-C05',
-        '"makes the test fail once it has finished" is claimed for expectations recorded after setUp returned normally: an expectThat mismatch in setUp followed by a skip raised in setUp ends as addSkip (the setUp-failed branch of RunTest._run_core never looks at force_failure); force_failure left by an earlier run of the same instance is carried over (_reset does not clear it) - M-Run models that as ff0',
+        '"makes the test fail once it has finished" is claimed for expectations recorded in the test method and in setUp, before or after the upcall to the base setUp (whatever setUp then does: return, skip, expected failure, error ... - the setUp-failed branch of RunTest._run_core raises the forced failure too, since the fix); force_failure left by an earlier run of the same instance is carried over (_reset does not clear it) - M-Run models that as ff0 and C03 judges those runs',
         'describe() / str(MismatchError) / str(matcher) are asked twice of the same object and must answer the same text',
     ]
 
@@ -337,7 +343,7 @@ class C07(Prop):
                 'extracted from the tree on every run, unset Mismatch._description, %-formatting arity), str(matcher), describe(), get_details() and '
                 'str(MismatchError) (verbose or not, annotated or not) succeed for every stock matcher expression of any depth and every value; a well-formed MatchesPredicate returns its Mismatch for every matchee, tuples included. '
                 'C07_assertThat_iff / C07_expectThat / C07_details_nonclobbering - assertThat and assert_that raise MismatchError iff match() returned a '
-                'mismatch; expectThat never raises and forces the failure: C07_expectThat_fails - after an expectThat mismatch the run is reported with addFailure whatever the rest of the body, tearDown and any number of cleanups do (return, skip, expected failure, unexpected success, failure, error), and with addError + re-raise when a stage raised KeyboardInterrupt - never success/skip/expected failure/unexpected success (selectExn_forced: the forced AssertionError is appended last and _select_exception prefers the last non-benign exception); details are attached under fresh names (pigeonhole proof for addDetailUniqueName). '
+                'mismatch; expectThat never raises and forces the failure: C07_expectThat_fails - after an expectThat mismatch, recorded in the test method or in setUp, the run is reported with addFailure whatever the rest of that stage (setUp may give up with a skip or an expected failure), tearDown and any number of cleanups do (return, skip, expected failure, unexpected success, failure, error), and with addError + re-raise when a stage raised KeyboardInterrupt - never success/skip/expected failure/unexpected success (selectExn_forced: the forced AssertionError is appended last and _select_exception prefers the last non-benign exception); details are attached under fresh names (pigeonhole proof for addDetailUniqueName). '
                 'Tied to the code by a differential check (real str()/describe()/MismatchError over matcher expressions and over every stock matcher built with each '
                 'legal shape of its constructor arguments (tuples of length 0/1/2, list, set, frozenset, str/bytes, None) on tuple and other matchees; '
                 'text_repr vs ast.literal_eval; real TestCase runs).',
@@ -502,6 +508,7 @@ class C07(Prop):
         from testtools.testresult.doubles import ExtendedTestResult
         api, existing, mm = inp[1:4]
         after, td, cleanups = (inp[4], inp[5], inp[6]) if len(inp) > 4 else ('ret', 'ret', [])
+        place = inp[7] if len(inp) > 7 else 'body'
         names = None if mm is None else mm[1]
         obs = {'raised': False, 'continued': False, 'names': None, 'ff': None}
 
@@ -541,7 +548,18 @@ class C07(Prop):
                 super().tearDown()
                 do(self, td)
 
+            def setUp(self):
+                if place == 'setUpEarly':      # own work first, the upcall last (never reached when the stage raises)
+                    self.stage()
+                super().setUp()
+                if place == 'setUp':
+                    self.stage()
+
             def test_it(self):
+                if place == 'body':
+                    self.stage()
+
+            def stage(self):
                 for c in cleanups:
                     self.addCleanup(do, self, c)
                 for n in existing:
@@ -685,6 +703,9 @@ class C07(Prop):
         # the test goes on after the call: rest of the body, tearDown, cleanups (registered in this order, run LIFO)
         act = lambda: rng.choice(ACTS) if rng.random() < 0.45 else 'ret'
         cleanups = [act() for _ in range(rng.choice([0, 0, 1, 1, 2, 3]))]
+        if rng.random() < 0.35:      # the call sits in setUp, which then returns or gives up (skip, expected failure, error ...)
+            return ['assert', api, existing, mm, rng.choice(ACTS) if rng.random() < 0.6 else 'ret', act(), cleanups,
+                    rng.choice(['setUp', 'setUp', 'setUpEarly'])]
         return ['assert', api, existing, mm, act(), act(), cleanups]
 
     def gen_describe(self, rng):
@@ -746,6 +767,15 @@ class C07(Prop):
                         for vb in (False, True):
                             yield ['describe', c[0], c[1], a, vb]
 
+        # the call in either stage x what the stage goes on to do x tearDown x a cleanup
+        for place in ('body', 'setUp', 'setUpEarly'):
+            for api in ('assertThat', 'expectThat', 'assert_that'):
+                for mm in (None, ['some', []], ['some', [2]]):
+                    for after in ['ret'] + sorted(set(ACTS)):
+                        for td in ('ret', 'skip', 'error', 'interrupt'):
+                            for cs in ([], ['skip'], ['xfail', 'ret'], ['interrupt']):
+                                yield ['assert', api, [[0, 0]] if mm else [], mm, after, td, cs, place]
+
     def nontrivial(self, inp, trace):
         if not isinstance(trace, list) or not trace:
             return False
@@ -793,8 +823,14 @@ class C07(Prop):
             f += ['api:' + inp[1], 'existing=%d' % min(len(inp[2]), 4), 'mismatch:' + ('none' if inp[3] is None else 'details=%d' % len(inp[3][1]))]
             if len(inp) > 4:
                 f += ['after:' + inp[4], 'tearDown:' + inp[5], 'cleanups=%d' % len(inp[6])] + sorted({'cleanup:' + c for c in inp[6]})
+                place = inp[7] if len(inp) > 7 else 'body'
+                f.append('place:' + place)
                 if inp[1] == 'expectThat' and inp[3] is not None and any(a in ('skip', 'xfail') for a in [inp[4], inp[5]] + inp[6]):
                     f.append('failed-expectation-then-skip/xfail')
+                if place != 'body' and inp[4] != 'ret':
+                    f.append('setUp-gives-up:' + inp[4])
+                    if inp[1] == 'expectThat' and inp[3] is not None:
+                        f.append('failed-expectation-in-setUp-then:' + inp[4])
             if ok:
                 f.append('outcome:' + str(trace[5]))
                 if any(n[1] > 0 for n in trace[3][len(inp[2]):]):
@@ -830,13 +866,18 @@ class C07(Prop):
             ex = inp[2]
             tail = list(inp[4:]) if len(inp) > 4 else ['ret', 'ret', []]
             if len(inp) > 4:
-                after, td, cs = tail
+                after, td, cs = tail[:3]
+                pl = tail[3:]
                 for i in range(len(cs)):
-                    yield ['assert', inp[1], ex, inp[3], after, td, cs[:i] + cs[i + 1:]]
+                    yield ['assert', inp[1], ex, inp[3], after, td, cs[:i] + cs[i + 1:]] + pl
                 if td != 'ret':
-                    yield ['assert', inp[1], ex, inp[3], after, 'ret', cs]
+                    yield ['assert', inp[1], ex, inp[3], after, 'ret', cs] + pl
                 if after != 'ret':
-                    yield ['assert', inp[1], ex, inp[3], 'ret', td, cs]
+                    yield ['assert', inp[1], ex, inp[3], 'ret', td, cs] + pl
+                if pl == ['setUpEarly']:
+                    yield ['assert', inp[1], ex, inp[3], after, td, cs, 'setUp']
+                if pl and pl != ['body']:
+                    yield ['assert', inp[1], ex, inp[3], after, td, cs]
             for i in range(len(ex)):
                 yield ['assert', inp[1], ex[:i] + ex[i + 1:], inp[3]] + tail
             if inp[3] is not None:
